@@ -6,7 +6,7 @@ import json, os, re, subprocess, sys, shutil
 wt, k, prop = sys.argv[1], sys.argv[2], sys.argv[3]
 env = dict(os.environ, GOFLAGS="-mod=mod", GOPROXY="off", GOSUMDB="off")
 def sh(cmd, timeout=1500):
-    r = subprocess.run(cmd, shell=True, cwd=wt, env=env, capture_output=True, text=True, timeout=timeout)
+    r = subprocess.run(cmd, shell=True, cwd=wt, env=env, capture_output=True, text=True, errors="replace", timeout=timeout)
     return r.returncode, (r.stdout + r.stderr)[-3000:]
 md = os.path.join(wt, "_mutants")
 patch = os.path.join(md, "m%s.patch.diff" % k)
